@@ -29,7 +29,8 @@ Inductive src :=
 Inductive mut :=
 | MSetVar (p : path) (e : expr)            (* <p>.value = e *)
 | MSetAttr (p : path) (k : key) (s : src)  (* setattr(<p>, k, s) *)
-| MDelAttr (p : path) (k : key).           (* delattr(<p>, k) *)
+| MDelAttr (p : path) (k : key)            (* delattr(<p>, k) *)
+| MSetMeta (p : path) (md : N).            (* the metadata of the Variable <p> becomes the set coded md: entries removed, re-bound, added *)
 
 Definition is_structural (m : mut) : bool := match m with MSetVar _ _ => false | _ => true end.
 
@@ -92,6 +93,13 @@ Definition step_mut (root : value) (h : heap) (m : mut) : option heap :=
       match node_at h root p with
       | Some (l, ty, attrs) => if khas k attrs then Some (set_nth l (ONode ty (kremove k attrs)) h) else None
       | None => None
+      end
+  | MSetMeta p md =>
+      match resolve (S (length p)) h root p with
+      | Some (VRef l) => match nth_error h l with
+                         | Some (OVar t x _) => Some (set_nth l (OVar t x md) h)
+                         | _ => None end
+      | _ => None
       end
   end.
 
